@@ -36,6 +36,9 @@ TRUSTED_BASE = [
     "extraction: ExtrOcamlBasic only (bool, option, unit, list, prod, sumbool, sumor; andb/orb inlined); Z/positive extracted as inductive types; no Extract Constant",
     "OCaml driver ocaml/driver.ml (hex<->Z, line protocol), OCaml 4.13.1",
     "Rust harness harness/src/*.rs (catch_unwind, line protocol) and rustc semantics of primitive integer operations",
+    "hooks: #[cfg(fpdec_verif)] verif_hooks in fpdec-core (repo commit fbb9d73): one-line forwarders to the private kernels",
+    "structural tie: tools/fingerprint.py + tools/source_fingerprints.json (item-level digests of the Rust text the model was written from; updated by hand only)",
+    "modelled, not verified: core::fmt padding, `as f64/f32` casts, thread_local!, derived Hash, serde/rkyv derives, rustc lexer and const evaluation, opt-level and packed layout (exercised by the correspondence run)",
 ]
 
 # ---------------------------------------------------------------------------------
